@@ -380,7 +380,7 @@ def main(argv=None):
             engine_selfcheck=selfcheck,
             vacuity=dict(covers=sum(o['covers'] for o in outs), covers_sat=sum(o['covers_sat'] for o in outs)),
             not_proved_clauses=list(getattr(mod, 'NOT_PROVED', [])),
-            degraded=degraded, known_findings=[k['id'] for k, _ in known_hits], fixed=fixed,
+            degraded=degraded, known_findings=sorted({k['id'] for k, _ in known_hits}), fixed=fixed,
             explanation=('proof: every obligation generated from the current source was discharged' if level == 'proof' else
                          'degraded or partially refuted run: see degraded / known_findings / violations; bounded stand-ins listed under bounded'),
         ),
